@@ -195,8 +195,10 @@ def run(seed, tier, replay=None):
             ok = abs(cov - c) <= tol
             exp = f"= {conf} +- {float(tol)}"
         else:
-            # the simulated critical value is an order statistic of N_TRIALS draws of the statistic, so the coverage follows
-            # (about) Beta(c*N, (1-c)*N+1); accept its central 1-1e-10 interval, widened to the two neighbouring laws
+            # the simulated critical value np.quantile(ts, c) lies between the order statistics T_(k) and T_(k+1) of N_TRIALS draws of
+            # the statistic, k = floor(c(N-1))+1 = c*N (1-based), so its coverage lies between a Beta(k, N+1-k) and a Beta(k+1, N-k)
+            # variable (Props/C01: simulated_critical_value_coverage_is_beta, interpolated_critical_value_coverage_between_betas);
+            # accept from the lower 5e-11 quantile of the first law to the upper 5e-11 quantile of the second
             k = conf * N_TRIALS
             lo_q = float(stats.beta.ppf(5e-11, max(k, 1.0), (N_TRIALS - k) + 1.0)) if k >= 1 else 0.0
             hi_q = float(stats.beta.ppf(1 - 5e-11, k + 1.0, max(N_TRIALS - k, 1.0))) if k < N_TRIALS else 1.0
